@@ -288,6 +288,9 @@ class GenericElongationGroove(GrooveBase, ReprMixin):
         if self.flank_angle > np.pi / 2:
             raise ValueError("under given conditions the flank is undercut (flank angle above 90°)")
 
+        if min(self.alpha2, self.alpha3, self.alpha4) < -1e-9:
+            raise ValueError("under given conditions an arc would have to turn backwards (radii that do not fit)")
+
         if abs(self.y4 - self._flank_contour_line(self.z4)) > max(0.001 * self.depth, 1e-9 * self.usable_width):
             raise ValueError("under given conditions a step appears in z4")
 
